@@ -184,6 +184,129 @@ func sitesReaching(c *Check, in *ssa.Function, set map[*ssa.Function]bool) []ssa
 	return out
 }
 
+// regionOf: root plus the functions of root's own package reachable from it through statically resolved calls
+// (a function and the private helpers it was split into).
+func regionOf(c *Check, root *ssa.Function) map[*ssa.Function]bool {
+	out := map[*ssa.Function]bool{root: true}
+	work := []*ssa.Function{root}
+	for len(work) > 0 {
+		f := work[len(work)-1]
+		work = work[:len(work)-1]
+		for _, s := range engine.SitesIn(f) {
+			call, ok := s.(*ssa.Call)
+			if !ok {
+				continue
+			}
+			h := call.Call.StaticCallee()
+			if h == nil || len(h.Blocks) == 0 || h.Pkg != root.Pkg || out[h] {
+				continue
+			}
+			// exported methods of other receivers are interfaces of their own, not helpers
+			if h.Signature.Recv() != nil && root.Signature.Recv() != nil && !types.Identical(h.Signature.Recv().Type(), root.Signature.Recv().Type()) {
+				continue
+			}
+			out[h] = true
+			work = append(work, h)
+		}
+	}
+	return out
+}
+
+// regionSites lists the call sites inside the region that leave it.
+func regionSites(c *Check, region map[*ssa.Function]bool) []ssa.CallInstruction {
+	var fns []*ssa.Function
+	for f := range region {
+		fns = append(fns, f)
+	}
+	sort.Slice(fns, func(i, j int) bool { return c.P.FuncName(fns[i]) < c.P.FuncName(fns[j]) })
+	var out []ssa.CallInstruction
+	for _, f := range fns {
+		for _, s := range engine.SitesIn(f) {
+			if call, ok := s.(*ssa.Call); ok {
+				if h := call.Call.StaticCallee(); h != nil && region[h] {
+					continue
+				}
+			}
+			out = append(out, s)
+		}
+	}
+	return out
+}
+
+// forwardsError: whenever call p (inside h) fails, h does not return a nil error — every return of h
+// reachable from p without taking p's err == nil branch yields p's own error or a freshly built one.
+func forwardsError(h *ssa.Function, p ssa.CallInstruction) bool {
+	hi := engine.ErrResultIndex(h.Signature)
+	pi := engine.ErrResultIndex(p.Common().Signature())
+	if hi < 0 || pi < 0 {
+		return false
+	}
+	ok := true
+	engine.PathExists(h, p, func(in ssa.Instruction) bool {
+		r, isRet := in.(*ssa.Return)
+		if !isRet || in.Parent() != h || hi >= len(r.Results) {
+			return false
+		}
+		orig := engine.Origins(r.Results[hi])
+		if len(orig) == 0 {
+			ok = false
+		}
+		for _, o := range orig {
+			if o == nil {
+				ok = false
+				continue
+			}
+			if call, idx := engine.CallOf(o); call != nil {
+				if call == p && idx == pi {
+					continue
+				}
+				if n := engine.CalleeName(call); n == "fmt.Errorf" || n == "errors.New" || n == "errors.Join" {
+					continue
+				}
+			}
+			ok = false
+		}
+		return false // keep searching: every such return must qualify
+	}, engine.PathQuery{CutEdge: engine.NilErrEdgesOf(p), Shallow: true})
+	return ok
+}
+
+// liftedSites returns the call sites of fn that satisfy prim, or that statically call a first-party
+// helper containing such sites (recursively) and forwarding each of their errors. Helpers that contain
+// a primitive site without forwarding its error are reported in leaks.
+func liftedSites(c *Check, fn *ssa.Function, prim func(ssa.CallInstruction) bool, depth int) (sites []ssa.CallInstruction, leaks []string) {
+	for _, s := range engine.SitesIn(fn) {
+		if prim(s) {
+			sites = append(sites, s)
+			continue
+		}
+		call, ok := s.(*ssa.Call)
+		if !ok || depth >= 3 {
+			continue
+		}
+		h := call.Call.StaticCallee()
+		if h == nil || len(h.Blocks) == 0 || h == fn {
+			continue
+		}
+		inner, innerLeaks := liftedSites(c, h, prim, depth+1)
+		leaks = append(leaks, innerLeaks...)
+		if len(inner) == 0 {
+			continue
+		}
+		fwd := true
+		for _, p := range inner {
+			if !forwardsError(h, p) {
+				fwd = false
+				leaks = append(leaks, c.P.FuncName(h)+" can return a nil error after "+engine.CalleeName(p)+" failed ("+c.P.InstrPos(p)+")")
+			}
+		}
+		if fwd {
+			sites = append(sites, s)
+		}
+	}
+	return sites, leaks
+}
+
 // onlyAfterSuccess: in fn, `b` can only be reached after `a` ran and its error
 // result was tested nil. Returns "" when it holds, else a description.
 func onlyAfterSuccess(fn *ssa.Function, a, b ssa.CallInstruction) string {
@@ -296,6 +419,7 @@ func fieldReadOn(v ssa.Value, name string) (ssa.Value, bool) {
 
 // sameVar: two SSA values denote the same variable (identical, or loads of the same cell).
 func sameVar(a, b ssa.Value) bool {
+	a, b = engine.ResolveCtx(a), engine.ResolveCtx(b)
 	if a == b {
 		return true
 	}
